@@ -5,6 +5,11 @@ Correspondence streams (real code in-process vs native Lean driver):
           real: AminoAcidSeqRecord.find_all_enzymatic_cleave_sites
           model: cleaveSites (scan) — and the positional spec isSite
   ranges  same strings, iter_enzymatic_cleave_sites_with_range
+  pranges same strings + planted pattern instances, against the positional pairing
+          statement rangeSpec (Props.C10.range_pairing)
+  wings   same strings, iter_enzymatic_cleave_sites_with_range_local (EXPASY_RULES_WINGS_SIZE)
+  pcleave the cleave cases (proteins <= 30) against the positional digest posDigest
+          (Props.C10.cleave_spec_positional)
   cstop   strings with '*', find_all_cleave_and_stop_sites
   cleave  random proteins x configurations, enzymatic_cleave
   pool    random proteomes (+ malformed stream), create_unique_peptide_pool
@@ -57,6 +62,63 @@ def real_ranges(rec_cls, seq, rule, exc):
             return 'reject:inconsistent'
         return 'crash:ValueError'
     return ','.join(f'{s}:{a}-{b}' for s, (a, b) in out)
+
+
+def real_ranges_local(rec_cls, seq, rule):
+    """iter_enzymatic_cleave_sites_with_range_local (the EXPASY_RULES_WINGS_SIZE consumer)"""
+    from Bio.Seq import Seq
+    r = rec_cls(Seq(seq))
+    try:
+        out = list(r.iter_enzymatic_cleave_sites_with_range_local(rule))
+    except ValueError as e:
+        if 'Cannot extract matched pattern' in str(e):
+            return 'reject:wings'
+        if 'size being 0 for both wings' in str(e):
+            return 'reject:wings-zero'
+        return 'crash:ValueError'
+    return ','.join(f'{s}:{a}-{b}' for s, (a, b) in out)
+
+
+def planted_strings(rule2_text: str, rng, per_alt: int):
+    """Instances of every alternative of a flattened rule (EXPASY_RULES2 text), with random
+    flanks: strings that are guaranteed to contain a full pattern window, also for the
+    5- and 6-residue rules no short exhaustive string reaches."""
+    import re as _re
+    alts, depth, cur = [], 0, ''
+    for ch in rule2_text:
+        if ch == '(':
+            depth += 1
+        elif ch == ')':
+            depth -= 1
+        elif ch == '|' and depth <= 1:
+            alts.append(cur)
+            cur = ''
+        else:
+            cur += ch
+    alts.append(cur)
+    out = []
+    for alt in alts:
+        toks = _re.findall(r'(\[\^?[A-Z]+\]|\\w|[A-Z])(?:\{(\d+)\})?', alt)
+        for _ in range(per_alt):
+            body = []
+            for tok, rep in toks:
+                for _k in range(int(rep) if rep else 1):
+                    if tok == '\\w':
+                        body.append(rng.choice(AA))
+                    elif tok.startswith('[^'):
+                        body.append(rng.choice([a for a in AA if a not in tok[2:-1]]))
+                    elif tok.startswith('['):
+                        body.append(rng.choice(tok[1:-1]))
+                    else:
+                        body.append(tok)
+            letters = sorted(set(_re.findall(r'[A-Z]', rule2_text))) + ['A', 'G', 'P']
+            left = ''.join(rng.choice(letters) for _ in range(rng.randint(0, 4)))
+            right = ''.join(rng.choice(letters) for _ in range(rng.randint(0, 4)))
+            s = left + ''.join(body) + right
+            if rng.random() < 0.3:      # two windows, possibly overlapping
+                s = s[:rng.randint(1, len(s))] + ''.join(body) + right
+            out.append(s)
+    return out
 
 
 def real_cstop(rec_cls, seq, rule, exc):
@@ -257,6 +319,8 @@ def run(ctx: common.Ctx):
     L = ctx.n(4, 6)
     budget = ctx.n(6000, 400000)   # max strings per (rule, exc)
     total_exh = 0
+    total_planted = 0
+    wings_hit = {}
     # ---- sites / ranges, exhaustive
     for name in names:
         excs = [None, 'trypsin_exception'] if name == 'trypsin' else [None]
@@ -264,9 +328,24 @@ def run(ctx: common.Ctx):
             excs = [None, 'trypsin_exception']
         for exc in excs:
             alpha = quotient_alphabet(rules[name], rules.get(exc) if exc else None)
-            cases_s, cases_r, cases_i = [], [], []
+            cases_s, cases_r, cases_i, cases_p, cases_w = [], [], [], [], []
             cnt = 0
             done = False
+
+            def one(s):
+                e = exc or '-'
+                real = real_sites(AminoAcidSeqRecord, s, name, exc)
+                cases_s.append((f'C10\tsites\t{name}\t{e}\t{s}', real, (name, exc, s)))
+                cases_i.append((f'C10\tissite\t{name}\t{e}\t{s}', real, (name, exc, s)))
+                rr = real_ranges(AminoAcidSeqRecord, s, name, exc)
+                cases_r.append((f'C10\tranges\t{name}\t{e}\t{s}', rr, (name, exc, s)))
+                cases_p.append((f'C10\tpranges\t{name}\t{e}\t{s}', rr, (name, exc, s)))
+                if exc is None:
+                    rl = real_ranges_local(AminoAcidSeqRecord, s, name)
+                    cases_w.append((f'C10\twings\t{name}\t{s}', rl, (name, None, s)))
+                    if rl == 'reject:wings' and name not in wings_hit:
+                        wings_hit[name] = s
+
             for ln in range(0, L + 1):
                 if done:
                     break
@@ -275,14 +354,13 @@ def run(ctx: common.Ctx):
                         done = True
                         break
                     cnt += 1
-                    s = ''.join(tup)
-                    e = exc or '-'
-                    real = real_sites(AminoAcidSeqRecord, s, name, exc)
-                    cases_s.append((f'C10\tsites\t{name}\t{e}\t{s}', real, (name, exc, s)))
-                    cases_i.append((f'C10\tissite\t{name}\t{e}\t{s}', real, (name, exc, s)))
-                    cases_r.append((f'C10\tranges\t{name}\t{e}\t{s}',
-                                    real_ranges(AminoAcidSeqRecord, s, name, exc), (name, exc, s)))
+                    one(''.join(tup))
             total_exh += cnt
+            # planted instances of every alternative (reach the 5/6-residue windows)
+            prng = ctx.rng('planted:' + name + ':' + (exc or '-'))
+            for s in planted_strings(tabs['rules2'][name], prng, ctx.n(12, 120)):
+                one(s)
+                total_planted += 1
             d = lambda o: {'rule': o[0], 'exception': o[1], 'seq': o[2]}
             nt = lambda o: o != ''
             ctx.diff_stream('sites', cases_s, True, d, nt,
@@ -291,9 +369,25 @@ def run(ctx: common.Ctx):
                             'cleavage sites differ from the positional ExPASy definition')
             ctx.diff_stream('ranges', cases_r, True, d, nt,
                             'site/range pattern pairing differs')
+            ctx.diff_stream('pranges', cases_p, True, d, nt,
+                            'a site is not paired with the window of the alternative matching '
+                            'there (positional pairing statement, Props.C10.range_pairing)')
+            ctx.diff_stream('wings', cases_w, True, d, nt,
+                            'iter_enzymatic_cleave_sites_with_range_local differs from the '
+                            'positional pairing statement / from what EXPASY_RULES_WINGS_SIZE allows')
+    # EXPASY_RULES_WINGS_SIZE entries that do not cover their rule (Lean: wingsCover = false,
+    # Props.C10.wings_cover_partial): the local range search cannot succeed at any site.
+    for name, s in sorted(wings_hit.items()):
+        ctx.add_violation(
+            'EXPASY_RULES_WINGS_SIZE entry shorter than the look-behind + consumed residue of the '
+            'rule: iter_enzymatic_cleave_sites_with_range_local raises on every sequence with a site',
+            {'rule': name, 'seq': s, 'wings': tabs['wings'][name], 'pattern': rules[name],
+             'real': 'ValueError: Cannot extract matched pattern'},
+            finding_key='wings-size-too-small')
     ctx.coverage['exhaustive'] = True
     ctx.coverage['exhaustive_strings'] = total_exh
     ctx.coverage['exhaustive_max_len'] = L
+    ctx.coverage['planted_strings'] = total_planted
 
     # ---- cstop
     rng = ctx.rng('cstop')
@@ -331,6 +425,12 @@ def run(ctx: common.Ctx):
             'cds_start_nf', 'seq']
     ctx.diff_stream('cleave', cases, True, lambda o: dict(zip(keys, o)), lambda o: o != '',
                     'enzymatic_cleave output is not the set of digestion products')
+    # the same real outputs against the positional statement (every pair of positions tried)
+    pc = [(ln.replace('C10\tcleave\t', 'C10\tpcleave\t', 1), real, obj)
+          for ln, real, obj in cases if len(obj[-1]) <= 30]
+    ctx.diff_stream('pcleave', pc, True, lambda o: dict(zip(keys, o)), lambda o: o != '',
+                    'enzymatic_cleave output is not the positional set of digestion products '
+                    '(Props.C10.cleave_spec_positional)')
 
     # ---- pool
     rng = ctx.rng('pool')
